@@ -164,7 +164,8 @@ class SuitKMS(SuitKMSBase):
         if algorithm == "hash-eddsa":
             # In the special case of hash-eddsa, we need to use pycryptodome, which needs the raw key
             # data to import the key
-            private_key = open(private_key_path).read()
+            with open(private_key_path, "rb") as key_file:
+                private_key = key_file.read()
 
         signature = sign_method(data, private_key)
 
